@@ -268,7 +268,7 @@ def main():
     ap.add_argument('--jobs', type=int, default=16)
     ap.add_argument('--only', nargs='*')
     ap.add_argument('--props', nargs='*')
-    ap.add_argument('--transforms', default='T0,T1,T2')
+    ap.add_argument('--transforms', default='T0,T1,T2,T3,T4,T6')
     a = ap.parse_args()
     props = a.props or sorted(f[:3] for f in os.listdir(os.path.join(HERE, 'stonelint', 'rules'))
                               if f.startswith('C') and f.endswith('.py'))
